@@ -32,8 +32,16 @@ Definition bare_step (st : sstate) (op : Z) (a : list Z) : sstate * list Z :=
   let s := ss_strat st in
   if op =? 1 then
     let '(s', ok, n, o) := strat_try s (nz a 0) in
+    (* in-flight metric samples emitted by this TryAcquire: simple/precise sample the counter at the decision (granted or not);
+       a partitioned strategy samples the charged partition's busy count on a grant *)
+    let emitted := match s' with
+                   | SPart p' => match o with
+                                 | Some i => match get_obj (p_objs p') i with Some b => [b_busy b] | None => [] end
+                                 | None => [] end
+                   | _ => [n]
+                   end in
     ({| ss_strat := s'; ss_tokens := if ok then ss_tokens st ++ [o] else ss_tokens st |},
-     (if ok then 1 else 2) :: b2z ok :: n :: state_code s')
+     (if ok then 1 else 2) :: b2z ok :: n :: Z.of_nat (length emitted) :: emitted ++ state_code s')
   else if op =? 2 then
     match nth_error (ss_tokens st) (Z.to_nat (nz a 0)) with
     | Some (Some i) => let s' := strat_release s i in ({| ss_strat := s'; ss_tokens := ss_tokens st |}, 3 :: state_code s')
